@@ -18,6 +18,10 @@
 (*                     time would not fit 48 bits                          *)
 (*   false-failure     an honest, in-range synchronisation reported failed *)
 (*   prediction        outcome / written time differ from TimeSync.tla     *)
+(*   lan-stale-record  (outstation alone, any history of RECORD_CURRENT_TIME, *)
+(*                     repetitions, WRITE g50v3 and pauses) the time handed  *)
+(*                     over is not the time sent plus what elapsed since the *)
+(*                     most recent executed RECORD_CURRENT_TIME              *)
 (***************************************************************************)
 EXTENDS TimeSync
 
@@ -28,8 +32,20 @@ V(m, reason, l, e, ctx) == [m EXCEPT !.viol = Append(@, [prop |-> "C18", reason 
 
 ObsBound(e) == IF e.c.proc = "lan" THEN e.fwdObs ELSE Abs(e.fwdObs - e.backObs)
 
+\* the outstation's side of the LAN procedure: e.ops = the history [op, t, wt] (wt = the time handed to the
+\* application by that request, -1 none)
+LanStep(m, e, l) ==
+    LET exp == LanExpect(e.ops, -1, 1)
+        bad == {i \in 1..Len(e.ops) : exp[i] >= 0 /\ e.ops[i].wt # exp[i]}
+        dup == {i \in 1..Len(e.ops) : e.ops[i].op \in {"Rr", "A1", "A2", "R"} /\ e.ops[i].wt # -1}
+    IN IF bad # {} THEN V([m EXCEPT !.n = @ + 1], "lan-stale-record", l, e,
+                          "the time written is not the one sent plus what elapsed since the last RECORD_CURRENT_TIME")
+       ELSE IF dup # {} THEN V([m EXCEPT !.n = @ + 1], "lan-spurious-write", l, e, "a request other than a new WRITE set the clock")
+       ELSE [m EXCEPT !.n = @ + 1]
+
 MonStep(m, e, l) ==
-    IF e.k # "ts" THEN m
+    IF e.k = "lan" THEN LanStep(m, e, l)
+    ELSE IF e.k # "ts" THEN m
     ELSE
     LET m0 == [m EXCEPT !.n = @ + 1]
         c == e.c
